@@ -221,7 +221,7 @@ pub fn def() -> PropDef {
         assumptions: &["the solo answer is the specification (its equality with a full scan is C04)", "real-thread interleavings are only sampled"],
         subs: || {
             vec![
-                Box::new(Sub::<Case> { name: "scheduled", cases: |t| t.scale(600, 10), strategy, exec: exec_scheduled }),
+                Box::new(Sub::<Case> { name: "scheduled", cases: |t| t.scale(1_500, 8), strategy, exec: exec_scheduled }),
                 Box::new(Sub::<Case> { name: "threads", cases: |t| t.pick(24, 300), strategy, exec: exec_threads }),
             ]
         },
